@@ -21,7 +21,7 @@ ID = "C02"
 LEVEL = "model_checking"
 RULE = (
     "rotation vectors psi = m*d over the full product of 26 lattice + 3 (thorough: 12) seed-rotated generic directions d and the magnitude "
-    "ladder m in {0,1e-12,1e-9,1e-6,1e-3,.1,1,2,3,pi-1e-2,pi-1e-3,pi-1e-5,pi-1e-6,pi-1e-8,pi-1e-10,pi-1e-12,nextafter(pi,0)} "
+    "ladder m in {0,1e-12,1e-9,1e-6,1e-3,.1,1,2,3,pi-1e-2,pi-1e-3,...(every decade)...,pi-1e-10,pi-1e-12,nextafter(pi,0)} "
     "(+ {pi,4,5,6,2pi-1e-3} for T/T_inv only; thorough adds 14 intermediate magnitudes), per psi 4 increments psi_dot and 4 translations r; rotation matrices of all "
     "quaternions (p0,p), p0 in {0,1e-12,1e-9,1e-6,1e-3,1,2}, p in {-2..2}^3 (874 letters) and the 24 proper signed permutation "
     "matrices, each also as SE(3) element with 2 translations.  A case is non-trivial if every routine of the property "
@@ -29,18 +29,19 @@ RULE = (
 )
 ASSUMPTIONS = [
     "mpmath (60 digits) closed forms of Exp, T, cofactor inverse of T, Exp_SE3 are the reference; they are re-bound in every case to mp.expm of the skew / twist matrix and to the body-fixed spin R^T dR of the reference Exp (discrepancy > 1e-30 aborts the run as harness error)",
-    "round-trip tolerance 1e-7 absolute (a correctly branched float logarithm reaches 1e-15; measured noise of the current code is <= 1.2e-9 up to pi-1e-3 and grows like 6e-16/(pi-angle)^2 beyond, so rungs between pi-1e-3 and pi-1e-5 are left out as undecidable at this tolerance)",
+    "SO(3) round-trip tolerance 1e-11 absolute on the whole ladder including every decade between pi-1e-2 and pi-1e-12 (a correctly branched float logarithm reaches 1e-14; measured 2.8e-14 since the near-half-turn branch of Log_SO3 was repaired; an arccos-based angle next to the half turn loses up to 5e-8 and is a violation: seeded C02-h); SE(3) round trips 1e-7 x max(1,|r|)",
     "T-family tolerance (1e-10 + 20 n(a))/(1-a/2pi), a=|psi|: T is singular at 2 pi; n(a) = a*min(1, 2.3e-16/a^2) <= 1.5e-8 is the rounding noise of (1-cos a)/a^2 * |psi| in T_SO3 for tiny angles, accepted as noise (absolute error <= 1e-8 on an O(1) matrix), not as a defect",
     "float rotation matrices built from quaternions are within one rounding per entry of an exact rotation",
 ]
 MIN_NONTRIVIAL = 300
 CASE_TIMEOUT = 120
 
-TOL_RT = 1e-7  # round trips
+TOL_RT = 1e-7  # SE(3) round trips (inherit the accepted small-angle rounding noise of T_SO3)
+TOL_SO3 = 1e-11  # SO(3) round trips: a correctly branched float logarithm reaches 1e-14 on the whole ladder (measured 2.8e-14)
 TOL_MAP = 1e-10  # conformance of forward maps, orthonormality
 PI = math.pi
 
-MAGS_LOG = [0.0, 1e-12, 1e-9, 1e-6, 1e-3, 0.1, 1.0, 2.0, 3.0, PI - 1e-2, PI - 1e-3, PI - 1e-5, PI - 1e-6, PI - 1e-8,
+MAGS_LOG = [0.0, 1e-12, 1e-9, 1e-6, 1e-3, 0.1, 1.0, 2.0, 3.0, PI - 1e-2, PI - 1e-3, PI - 1e-4, PI - 1e-5, PI - 1e-6, PI - 1e-7, PI - 1e-8, PI - 1e-9,
             PI - 1e-10, PI - 1e-12, float(np.nextafter(PI, 0))]
 MAGS_T = [PI, 4.0, 5.0, 6.0, 2 * PI - 1e-3]
 MAGS_MORE = [1e-10, 1e-8, 1e-7, 1e-5, 1e-4, 1e-2, 0.5, 1.5, 2.5, PI - 0.1, 3.5, 4.5, 5.5, 2 * PI - 1e-2]  # thorough tier
@@ -137,7 +138,7 @@ def _matrix_checks(A, data, F, seed, stat_sfx=""):
     near = data["dist_to_pi"] <= 2e-5
     tag = "near_pi" if near else "regular"
     psi = Log_SO3(A)
-    F.cmp("Exp_SO3(Log_SO3(A)) vs A", Exp_SO3(psi), A, TOL_RT, data, "ExpLog_" + tag)
+    F.cmp("Exp_SO3(Log_SO3(A)) vs A", Exp_SO3(psi), A, TOL_SO3, data, "ExpLog_" + tag)
     q = Spurrier(A)
     F.cmp("Spurrier(A): unit norm", q @ q, 1.0, 1e-12, data, "spurrier_unit")
     F.cmp("Spurrier(A): quaternion reproduces A", _unnorm_quat_R(q), A, 1e-9, data, "spurrier_rep")
@@ -203,7 +204,7 @@ def check(case):
             F.cmp("Exp_SO3: R^T R = I", A.T @ A, I3, TOL_MAP, data, "Exp_orth")
             F.cmp("Exp_SO3: det R = 1", np.linalg.det(A), 1.0, TOL_MAP, data, "Exp_det")
             F.cmp("Exp_SO3 vs mpmath Exp", A, rr.to_np(rr.Exp(psi)), TOL_MAP, data, "Exp_ref")
-            F.cmp("Log_SO3(Exp_SO3(psi)) vs psi", Log_SO3(A), psi, TOL_RT, data, "LogExp_" + tag)
+            F.cmp("Log_SO3(Exp_SO3(psi)) vs psi", Log_SO3(A), psi, TOL_SO3, data, "LogExp_" + tag)
             _matrix_checks(A, data, F, seed)
             for r in rs:
                 h = np.concatenate([r, psi])
@@ -238,7 +239,7 @@ def check(case):
                 if dist > 1:
                     F.cmp("Log_SO3 of a product equal to the identity up to rounding vs 0", psi, np.zeros(3), 1e-12, data, "compose_id")
                 else:
-                    F.cmp("|Log_SO3| of a product equal to a half turn up to rounding vs pi", np.sqrt(psi @ psi), PI, TOL_RT, data, "compose_pi")
+                    F.cmp("|Log_SO3| of a product equal to a half turn up to rounding vs pi", np.sqrt(psi @ psi), PI, TOL_SO3, data, "compose_pi")
                 _matrix_checks(A, data, F, seed)
                 n += 1
         F.stats["n_trace_above_3"] = over
